@@ -9,7 +9,7 @@ tokens   text      `x<hex>` (UTF-8, surrogates passed through)
          object    `i:<int>` `s:<text>` `f:<text>` (FTag member) `e:<text>` (other enum member)
                    `o:<text>:i<int>` / `o:<text>:E<Kind>` (any other object: str() and int() outcome)
          value     object | class;  class = `c:tnf` `c:rep` `c:exc:<text>` `c:oth:<text>`
-         default   `d:<text>` | class
+         default   `d:<text>` | `ds:<text>` | class
          dict      `{ obj (value | [ item* ]) … }`,  item = dict | `@ref` (a copy) | `bad`
 replies  `ok` / `err <Kind>` / values as documented at each command; `bad-op` if unparsable
 -/
@@ -99,10 +99,13 @@ def tokVal (t : String) : Option PyVal :=
   | some o => some (.obj o)
   | none => (tokCls (t.splitOn ":")).map .cls
 
-def tokDefault (t : String) : Option Default :=
+/-- `d:<repr>` a non-str, non-class default; `ds:<text>` a str default (a returned str default is
+indistinguishable from a stored str, so it is replied as `str`) -/
+def tokDefault (t : String) : Option (Default × Bool) :=
   match t.splitOn ":" with
-  | ["d", x] => (tokText x).map .obj
-  | parts => (tokCls parts).map .cls
+  | ["d", x] => (tokText x).map fun r => (.obj r, false)
+  | ["ds", x] => (tokText x).map fun r => (.obj r, true)
+  | parts => (tokCls parts).map fun k => (.cls k, false)
 
 /-! ### canonical structure dump -/
 
@@ -360,8 +363,11 @@ def handle (st : St) (cmd : String) (args : List String) : St × String :=
     | _, _ => (st, "bad-op")
   | "get", [r, t, d] =>
     match tokObj t, tokDefault d with
-    | some t, some d => reader st r fun c =>
-        match get c t d with | .ok x => getResTok x | .error k => errReply k
+    | some t, some (d, isStr) => reader st r fun c =>
+        match get c t d with
+        | .ok (.dflt x) => (if isStr then "str " else "dflt ") ++ textTok x
+        | .ok x => getResTok x
+        | .error k => errReply k
     | _, _ => (st, "bad-op")
   | "getitem", [r, t] =>
     match tokObj t with
